@@ -589,6 +589,31 @@ def judge_history(h, want, ignore_envelope=False):
                 if sp is not None and sp.usable() and nme in before["api_ccs"] and nme not in mapped_a:
                     bad("C10", i, f"ClusterCIDR {nme} was listed at start-up with a usable spec, yet it contributes no pool")
 
+        # C09: right after start-up every block of a listed ClusterCIDR that meets a configured service range is in use
+        if kind == "boot":
+            for e in snap_a:
+                sp = specs.get(e.get("name"))
+                if sp is None or not sp.usable() or e.get("name") not in before["api_ccs"]:
+                    continue
+                usedset = set(used_blocks(e, sp))
+                for sv in svcs:
+                    for r in sp.ranges():
+                        if r[0] != sv[0] or not overlap(r, sv):
+                            continue
+                        w_ = 32 if r[0] == 4 else 128
+                        bsz = 1 << sp.hb
+                        r0, r1 = r[1], r[1] + (1 << (w_ - r[2])) - 1
+                        s0, s1 = sv[1], sv[1] + (1 << (w_ - sv[2])) - 1
+                        lo, hi = max(r0, s0), min(r1, s1)
+                        i0, i1 = (lo - r0) // bsz, (hi - r0) // bsz
+                        if i1 - i0 > 4096:
+                            continue
+                        for k in range(i0, i1 + 1):
+                            b = sp.block(r, k)
+                            if b not in usedset:
+                                bad("C09", i, f"after start-up block {fmt(b)} of ClusterCIDR {e.get('name')} meets the service range {fmt(sv)} but is not marked used")
+                                break
+
         # C03 "loses no assignment": inside the fragment of the restart theorem - the node's pod CIDRs are blocks of one
         # listed ClusterCIDR that selects it, not edited, and no other listed ClusterCIDR's range meets them - the new
         # incarnation records every listed holder that is not being deleted
